@@ -14,6 +14,7 @@ package object
 
 import (
 	"bytes"
+	"errors"
 	"fmt"
 	"os"
 	"path/filepath"
@@ -330,6 +331,7 @@ func (m *model) checkData(wire []byte, p *mpkt) error {
 type relayFace struct {
 	mu      sync.Mutex
 	running bool
+	down    bool // the connection is lost: not running any more, every Send fails
 	onPkt   func(enc.ParseReader) error
 	onErr   func(error) error
 	out     [][]byte
@@ -361,6 +363,9 @@ func (f *relayFace) Send(pkt enc.Wire) error {
 	b = append([]byte{}, b...)
 	f.mu.Lock()
 	defer f.mu.Unlock()
+	if f.down {
+		return errors.New("verif: the connection is lost")
+	}
 	f.out = append(f.out, b)
 	return nil
 }
@@ -394,6 +399,9 @@ type getState struct {
 	obj   int
 	byVer *mver
 	read  int
+	// faceLost: the consumer's connection was lost before this consumption completed: it can only
+	// end with an error (and must end: exactly one completion)
+	faceLost bool
 
 	mu          sync.Mutex
 	calls       int
@@ -431,6 +439,7 @@ type harness struct {
 	prod     *object.Client
 	store    ndn.Store
 	fl       []*flight
+	consDown bool // the consumer's connection is lost (op cdown)
 	gets     map[int]*getState
 	hole     *Hole
 	cls      map[string]bool
@@ -621,6 +630,9 @@ func (h *harness) toConsumer(f *flight) error {
 			}
 			g.maxSeg = max(g.maxSeg, s)
 		}
+	}
+	if h.consDown {
+		return nil
 	}
 	if err := h.cf.onPkt(enc.NewBufferReader(append([]byte{}, f.buf...))); err != nil {
 		return fmt.Errorf("consumer engine failed on Data %s: %v", f.name, err)
@@ -850,6 +862,7 @@ func (h *harness) step(step int, op Op) error {
 				h.cls["two-gets-in-progress"] = true
 			}
 		}
+		g.faceLost = h.consDown
 		h.gets[op.O] = g
 		h.cons.Consume(withSlack(name, op.Slack), func(st *object.ConsumeState) bool {
 			g.mu.Lock()
@@ -908,6 +921,9 @@ func (h *harness) step(step int, op Op) error {
 			pkt := &spec.Packet{LpPacket: lp}
 			e := spec.PacketEncoder{}
 			e.Init(pkt)
+			if h.consDown {
+				return nil
+			}
 			if err := h.cf.onPkt(enc.NewBufferReader(e.Encode(pkt).Join())); err != nil {
 				return fmt.Errorf("consumer engine failed on a Nack for %s: %v", f.name, err)
 			}
@@ -918,6 +934,22 @@ func (h *harness) step(step int, op Op) error {
 			return h.deliver(i, true)
 		}
 		return h.deliver(i, false)
+
+	case "cdown":
+		// the consumer loses its connection: nothing arrives any more, nothing can be sent; every
+		// consumption still under way must nevertheless complete, exactly once (with an error)
+		h.cf.mu.Lock()
+		h.cf.down, h.cf.running = true, false
+		h.cf.mu.Unlock()
+		h.consDown = true
+		for _, g := range h.gets {
+			if !g.done() {
+				g.faceLost = true
+			}
+		}
+		h.fl = nil
+		h.cls["consumer-lost-its-connection-mid-fetch"] = true
+		return nil
 
 	case "adv":
 		if op.D <= 0 {
@@ -1034,6 +1066,10 @@ func (h *harness) verdict() error {
 		} else {
 			h.cls["completed-with-error"] = true
 			justified := false
+			if g.faceLost {
+				justified = true
+				h.cls["failed-after-the-connection-was-lost"] = true
+			}
 			if g.nacked {
 				// a Nack is a final answer for the client: failing the consumption is legitimate
 				justified = true
@@ -1238,7 +1274,15 @@ func genCase(t *rapid.T) Case {
 	nsteps := rapid.IntRange(0, 60).Draw(t, "nsteps")
 	kinds := []string{"dl", "dl", "dl", "dl", "dl", "dl", "dl", "dl", "dl", "dl", "dl", "dl", "dl", "dl", "dl", "dl", "dl", "dl",
 		"dr", "dr", "dr", "dr", "dr", "nk", "nk", "nk", "dup", "dup", "adv", "adv", "adv", "adv", "adv", "pub", "rm", "get", "get"}
+	// one case in eight: somewhere on the way the consumer loses its connection for good
+	cdownAt := -1
+	if nsteps > 0 && rapid.IntRange(0, 7).Draw(t, "cdown") == 0 {
+		cdownAt = rapid.IntRange(0, nsteps-1).Draw(t, "cdownAt")
+	}
 	for i := 0; i < nsteps; i++ {
+		if i == cdownAt {
+			c.Ops = append(c.Ops, Op{K: "cdown"})
+		}
 		switch k := rapid.SampledFrom(kinds).Draw(t, "kind"); k {
 		case "dl", "dr", "dup", "nk":
 			c.Ops = append(c.Ops, Op{K: k, I: rapid.IntRange(0, 11).Draw(t, "idx")})
